@@ -192,7 +192,7 @@ STYLES = ["random", "random", "random", "oneline", "vertical", "tight", "blanky"
 def relayout(rng, base_text, toks, style=None):
     """one candidate text from a tokenised base text"""
     style = style or rng.choice(STYLES)
-    pairs = [(k, t) for (k, t, _, _) in toks]
+    pairs = [(k, t) for (k, t, _, _) in toks if t != ""]
     if style == "orig":
         x = base_text
     elif style == "lines":
@@ -339,45 +339,79 @@ def token_spans(text, toks):
     return spans
 
 
-def shrink_text(text, toks, fails, budget=250):
-    """delta debugging over tokens (each deleted together with the separator that follows it).
-    fails(text) -> bool must be True for the returned text."""
+def shrink_text(text, toks, fails_many, budget=400):
+    """Structure-aware delta debugging over tokens (each deleted together with the separator that
+    follows it): first whole top-level items, then items one, two, three brackets deep, finally
+    single tokens.  fails_many(list of texts) -> list of bool (True = still parses and still fails;
+    evaluated in parallel by the harness).  The returned text satisfies the predicate (or is the input)."""
     spans = token_spans(text, toks)
     if spans is None or len(spans) < 2:
         return text
-    # pieces: prefix, then (token + following separator) per token
     pieces = [text[:spans[0][0]]]
     for i, (a, b) in enumerate(spans):
         end = spans[i + 1][0] if i + 1 < len(spans) else len(text)
         pieces.append(text[a:end])
+    ttext = [""] + [t for (_, t, _, _) in toks]       # token text of piece i
     keep = list(range(1, len(pieces)))
     evals = [0]
 
     def build(idx):
         return pieces[0] + "".join(pieces[i] for i in idx)
 
-    def test(cand):
-        if not cand or evals[0] >= budget:
-            return False
-        evals[0] += 1
-        return fails(build(cand))
+    def segments(idx, level):
+        if level is None:
+            return [[i] for i in idx]
+        segs, cur, depth = [], [], 0
+        for i in idx:
+            t = ttext[i]
+            if t in ("(", "[", "{", "#(", "'{"):
+                depth += 1
+            elif t in (")", "]", "}"):
+                depth = max(0, depth - 1)
+            cur.append(i)
+            if depth == level and t in (";", ",", "}"):
+                segs.append(cur)
+                cur = []
+        if cur:
+            segs.append(cur)
+        return segs
 
-    chunk = max(1, len(keep) // 2)
-    while chunk >= 1 and evals[0] < budget:
-        i = 0
-        progressed = False
-        while i < len(keep) and evals[0] < budget:
-            cand = keep[:i] + keep[i + chunk:]
-            if test(cand):
-                keep = cand
-                progressed = True
-            else:
-                i += chunk
-        if chunk == 1:
-            if not progressed:
+    for level in (0, 1, 2, 3, None):
+        while evals[0] < budget:
+            segs = segments(keep, level)
+            if len(segs) <= 1:
                 break
-        else:
-            chunk //= 2
+            cands = []
+            for j in range(len(segs)):
+                c = [i for k, sg in enumerate(segs) if k != j for i in sg]
+                cands.append(c)
+            cands = cands[:max(0, budget - evals[0])]
+            oks = fails_many([build(c) for c in cands])
+            evals[0] += len(cands)
+            good = [j for j, ok in enumerate(oks) if ok]
+            if not good:
+                break
+            # remove as many of the individually removable segments as possible: prefixes of the
+            # remaining candidates are tried in one parallel batch, the longest working one is taken,
+            # the segment that blocked it is skipped
+            removed = {good[0]}
+            remaining = good[1:]
+
+            def without(rm):
+                return [i for k, sg in enumerate(segs) if k not in rm for i in sg]
+
+            while remaining and evals[0] < budget:
+                pref = [without(removed | set(remaining[:k])) for k in range(1, len(remaining) + 1)]
+                pref = pref[:max(0, budget - evals[0])]
+                oks2 = fails_many([build(c) for c in pref])
+                evals[0] += len(pref)
+                best = 0
+                for k, ok in enumerate(oks2, start=1):
+                    if ok and pref[k - 1]:
+                        best = k
+                removed |= set(remaining[:best])
+                remaining = remaining[best + 1:]
+            keep = without(removed)
     return build(keep)
 
 
@@ -483,6 +517,19 @@ def first_diff(a, b):
     return n if len(a) != len(b) else -1
 
 
+# KNOWN_FINDINGS key: the text of an `embed` block is a token (terminal Any); the renderer's
+# strip_trailing_whitespace pass and unformat_embed_items' column arithmetic change white space inside it
+KEY_EMBED_WS = "embed-content-whitespace"
+
+
+def _has_ws(t):
+    return re.search(r"\s", t) is not None
+
+
+def _no_ws(t):
+    return re.sub(r"\s+", "", t)
+
+
 def judge_layout_only(r):
     """C09 oracle on one harness result (needs flags 't' and 's').  Returns list of (key, what)."""
     bad = []
@@ -494,8 +541,14 @@ def judge_layout_only(r):
         a, b = canon_tokens(tx), canon_tokens(tf)
         if a != b:
             i = first_diff(a, b)
-            bad.append(("tokens", "token sequence changed at token %d: original %r, formatted %r" % (
-                i, a[max(0, i - 2):i + 3], b[max(0, i - 2):i + 3])))
+            what = "token sequence changed at token %d: original %r, formatted %r" % (
+                i, a[max(0, i - 2):i + 3], b[max(0, i - 2):i + 3])
+            if len(a) == len(b) and all(x == y or (_has_ws(x) and _no_ws(x) == _no_ws(y)) for x, y in zip(a, b)):
+                # only tokens that contain white space themselves (embed content) changed, and only in
+                # their white space: KNOWN_FINDINGS key
+                bad.append((KEY_EMBED_WS, what))
+            else:
+                bad.append(("tokens", what))
         ca, cb = canon_comments(tx), canon_comments(tf)
         if ca != cb:
             i = first_diff(ca, cb)
@@ -515,17 +568,106 @@ def judge_layout_only(r):
     return bad
 
 
-def judge_idempotent(r):
-    """C08 oracle on one harness result (needs flag 'i')."""
+def _lines(text):
+    return text.replace("\r\n", "\n").split("\n")
+
+
+def _squeeze(line):
+    """a line without any blanks: two lines with the same squeeze differ in padding only"""
+    return re.sub(r"[ \t]+", "", line)
+
+
+# KNOWN_FINDINGS keys (see /verif/KNOWN_FINDINGS.txt, design/C08.md):
+# 1. with vertical_align = true formatting is not idempotent: the aligner splits its groups by SOURCE
+#    line gaps (Align::finish_item: line > loc.line || loc.line - line > 1) and the padding it inserts
+#    takes part in the line-fitting decisions of the next pass.  Recognised by: vertical_align on,
+#    fmt(fmt(x)) != fmt(x), and the SAME text formatted with vertical_align off IS idempotent
+#    (the harness runs both passes again with the option off).
+KEY_ALIGN_SOURCE_GAPS = "vertical-align-not-idempotent"
+# 2. `modport m { }` (empty body): newline_push + newline_pop + consume_adjust_line add one more blank
+#    line between the braces on the second pass.  Recognised by: the only difference is blank lines
+#    inserted between a line `modport <id> {` and the closing `}`.
+KEY_EMPTY_MODPORT = "empty-modport-braces"
+# 3. a list whose trailing `,` the formatter drops and re-creates as IfBreak(",") (argument lists, inst
+#    port / parameter lists, ...), with a line comment after the last item: the `,` is rendered on a line
+#    of its own after the comment; on the next pass that source `,` is dropped without advancing
+#    Formatter::line, so consume_adjust_line sees a gap and inserts a blank line before the closing
+#    delimiter.  Recognised by: the only difference is blank lines inserted directly after a line that
+#    consists of `,` alone.
+KEY_COMMA_AFTER_COMMENT = "dropped-trailing-comma-after-line-comment"
+
+_MODPORT_OPEN = re.compile(r"^\s*modport\s+\S+\s*\{\s*(//.*|/\*.*\*/\s*)?$")
+
+
+def _in_empty_modport(lines, j1, j2):
+    """lines[j1:j2] are blank and sit between `modport x {` and `}` with only blank lines around"""
+    i = j1 - 1
+    while i >= 0 and lines[i].strip() == "":
+        i -= 1
+    k = j2
+    while k < len(lines) and lines[k].strip() == "":
+        k += 1
+    return i >= 0 and k < len(lines) and _MODPORT_OPEN.match(lines[i]) is not None and lines[k].strip().startswith("}")
+
+
+def explain_nonidempotence(f1, f2):
+    """set of known-finding keys (vertical_align off classes) that account for EVERY difference
+    between f1 and f2, or None"""
+    import difflib
+    a, b = _lines(f1), _lines(f2)
+    keys = set()
+    sm = difflib.SequenceMatcher(None, a, b, autojunk=False)
+    for tag, i1, i2, j1, j2 in sm.get_opcodes():
+        if tag == "equal":
+            continue
+        if tag == "insert" and all(x.strip() == "" for x in b[j1:j2]):
+            if _in_empty_modport(b, j1, j2):
+                keys.add(KEY_EMPTY_MODPORT)
+                continue
+            p = j1 - 1
+            while p >= 0 and b[p].strip() == "":
+                p -= 1
+            if p >= 0 and b[p].strip() == ",":
+                keys.add(KEY_COMMA_AFTER_COMMENT)
+                continue
+        return None
+    return keys
+
+
+def judge_idempotent(r, cfg=None, text=None):
+    """C08 oracle on one harness result (needs flag 'i').  Returns list of (key, what)."""
     f1, f2 = r.get("f1"), r.get("f2")
     if failed(f2):
         return [("second-pass-fails", "formatting the formatted text fails: %s" % f2[1])]
-    if f2 is not None and f1 != f2:
-        la, lb = f1.split("\n"), f2.split("\n")
+    if f2 is None or f1 == f2:
+        return []
+
+    def describe(p, q, label):
+        la, lb = p.split("\n"), q.split("\n")
         i = first_diff(la, lb)
-        return [("not-idempotent", "fmt(fmt(x)) != fmt(x): first differing line %d: %r vs %r" % (
-            i + 1, la[i] if i < len(la) else "<eof>", lb[i] if i < len(lb) else "<eof>"))]
-    return []
+        return "%s: first differing line %d: %r vs %r" % (
+            label, i + 1, la[i] if i < len(la) else "<eof>", lb[i] if i < len(lb) else "<eof>")
+
+    what = describe(f1, f2, "fmt(fmt(x)) != fmt(x)")
+    f3 = r.get("f3")
+    if f3 is not None and not failed(f3) and f3 != f2:
+        what += " (and a third pass changes it again)"
+    if cfg is not None and cfg.get("vertical_align"):
+        n1, n2 = r.get("n1"), r.get("n2")
+        if n1 is None or failed(n1) or n2 is None or failed(n2):
+            return [("not-idempotent", what)]
+        if n1 == n2:
+            return [(KEY_ALIGN_SOURCE_GAPS, what)]
+        # not idempotent with vertical_align off either: judge that pair
+        keys = explain_nonidempotence(n1, n2)
+        what2 = describe(n1, n2, "with vertical_align off as well, fmt(fmt(x)) != fmt(x)")
+        if keys:
+            return [(k, what2) for k in sorted(keys)]
+        return [("not-idempotent", what2)]
+    keys = explain_nonidempotence(f1, f2)
+    if keys:
+        return [(k, what) for k in sorted(keys)]
+    return [("not-idempotent", what)]
 
 
 # ------------------------------------------------------------------ case production shared by C08 / C09
